@@ -54,6 +54,10 @@ const (
 	paramJobName = "_jobName"
 	paramHash    = "_hash"
 	paramScheme  = "_scheme"
+	// paramOverridePrefix carries a "__param_<name>" label whose value was changed by relabeling
+	// and whose <name> is also a param of the job: prometheus would overwrite the label itself
+	// with the job's param, so it is shipped under this prefix and restored by a labelmap rule
+	paramOverridePrefix = model.ReservedLabelPrefix + "kvass_param_"
 )
 
 // InjectConfigOptions indicate what to inject to config file
@@ -118,7 +122,7 @@ func (i *Injector) injectJobs(cfg *config.Config) error {
 		}
 
 		job.ServiceDiscoveryConfigs = []discovery.Config{
-			discovery.StaticConfig(target2targetGroup(job.JobName, i.curTargets[job.JobName])),
+			discovery.StaticConfig(target2targetGroup(job.JobName, i.curTargets[job.JobName], job.Params)),
 		}
 
 		job.Scheme = "http"
@@ -132,6 +136,13 @@ func (i *Injector) injectJobs(cfg *config.Config) error {
 				Separator:   ";",
 				Regex:       relabel.MustNewRegexp(target.PrefixForInvalidLabelName + "(.+)"),
 				Replacement: "$1",
+				Action:      relabel.LabelMap,
+			},
+			// restore params changed by relabeling
+			{
+				Separator:   ";",
+				Regex:       relabel.MustNewRegexp(paramOverridePrefix + "(.+)"),
+				Replacement: model.ParamLabelPrefix + "$1",
 				Action:      relabel.LabelMap,
 			},
 		}
@@ -247,7 +258,7 @@ func (i *Injector) inject() (err error) {
 	return nil
 }
 
-func target2targetGroup(job string, ts []*target.Target) []*targetgroup.Group {
+func target2targetGroup(job string, ts []*target.Target, params url.Values) []*targetgroup.Group {
 	ret := make([]*targetgroup.Group, 0)
 
 	for _, t := range ts {
@@ -262,7 +273,13 @@ func target2targetGroup(job string, ts []*target.Target) []*targetgroup.Group {
 				address = v.Value
 			}
 
-			ls[model.LabelName(v.Name)] = model.LabelValue(v.Value)
+			name := v.Name
+			if strings.HasPrefix(name, model.ParamLabelPrefix) {
+				if _, ok := params[name[len(model.ParamLabelPrefix):]]; ok {
+					name = paramOverridePrefix + name[len(model.ParamLabelPrefix):]
+				}
+			}
+			ls[model.LabelName(name)] = model.LabelValue(v.Value)
 		}
 
 		ls[model.LabelName(model.SchemeLabel)] = "http"
